@@ -137,6 +137,9 @@ def run(ctx):
     ctx.count("replayed_configurations", len(events))
     ctx.count("replayed_hg", sum(1 for e in events if e["case"]["vcs"] == "hg"))
     ctx.count("replayed_with_failure", sum(1 for e in events if e["case"]["failat"] != "none"))
+    if True:
+        from . import hooktrace as _ht
+        _ht.apply(ctx, ("update",), ("order:",))      # the repository's own tests, recorded through the hooks
     ctx.evaluations = len(events)
     for e in events:
         ctx.nontriv(e["dbg"])
